@@ -152,3 +152,37 @@ Proof.
       vm_compute in E2; try discriminate.
     exists s. apply rg_ok_inj in E2. subst s. repeat split; reflexivity.
 Qed.
+
+(* ---- average strategy (get_average_strategy, in the coalition space of the original game) for n = 3, 4, 5 *)
+Theorem avg_strategy_distribution : forall clamp (np lim : nat) plus s0 hist s,
+  In np [3; 4; 5]%nat -> (1 <= lim)%nat -> (clamp = true \/ (lim <= rg_ncoal np)%nat) ->
+  rg_construct (rg_mkvariant ById clamp) np lim plus = RgOk s0 ->
+  Forall (fun tu => rg_nonneg (fst tu)) hist ->
+  rg_run s0 hist = RgOk s ->
+  forall i past, (i < rg_nrm s)%nat -> rg_meta_id (rg_np s) (rg_pmap s) past = RgOk (rg_node s i) ->
+  exists av, rg_average_strategy s past = RgOk av /\ length av = length (rg_pmap s) /\ rg_nonneg av /\ qsum av == 1 /\
+    (forall c, ~ nth c av 0 == 0 ->
+       exists p, nth c (rg_pmap s) (-1)%Z = Z.of_nat p /\ (p < rg_nc s)%nat /\ tb (rg_node s i) p = false).
+Proof. exact rg_avg_full. Qed.
+Print Assumptions avg_strategy_distribution.
+
+(* the same in player-id space for every nc (no restriction on the number of players) *)
+Theorem avg_strategy_distribution_pid : forall s i, rg_inv s -> (i < rg_nrm s)%nat ->
+  exists av, rg_bind (rg_average_pid s (rg_node s i)) rg_normalize = RgOk av /\
+             length av = rg_nc s /\ rg_nonneg av /\ qsum av == 1 /\ rg_used0 s i av.
+Proof. exact rg_avg_pid_distribution. Qed.
+Print Assumptions avg_strategy_distribution_pid.
+
+Example avg_strategy_distribution_ex :
+  let hist := [([1; 0; 0], [[3; 5]; [5; 6]; [3; 6]]%N); ([0; 1; 0], [[3; 5]; [5; 6]; [3; 6]]%N)] in
+  exists s0 s, rg_construct (rg_mkvariant ById true) 3 2 false = RgOk s0 /\ rg_run s0 hist = RgOk s /\
+    (1 < rg_nrm s)%nat /\ rg_meta_id (rg_np s) (rg_pmap s) [3%N] = RgOk (rg_node s 1) /\
+    rg_average_strategy s [] = RgOk [0; 0; 0; 5 # 12; 0; 5 # 12; 1 # 6; 0].
+Proof.
+  cbv zeta.
+  destruct (rg_construct (rg_mkvariant ById true) 3 2 false) as [s0| | |] eqn:E; try (vm_compute in E; discriminate).
+  exists s0. vm_compute in E. apply rg_ok_inj in E. subst s0.
+  match goal with |- exists s, _ /\ ?r = RgOk s /\ _ => destruct r as [s| | |] eqn:E2 end;
+    vm_compute in E2; try discriminate.
+  exists s. apply rg_ok_inj in E2. subst s. repeat split; vm_compute; try reflexivity. lia.
+Qed.
